@@ -18,7 +18,9 @@
      cof=<none|ok|dangling|kind>  worst status of the COMPONENTS OF references (X.680 view)
      cofdup=<0|1>  asn1c's expansion differs from X.680's by the identifiers it does not compare
      cofext=<0|1>  ... by the extension markers/additions the clone drops in nested types
-     enumneg=<0|1> an extensible enumeration in X.680's order that asn1c's order check refuses *)
+     enumneg=<0|1> an extensible enumeration in X.680's order that asn1c's order check refuses
+     specc=<OK|NA|c1,..>  the spec's clauses evaluated on asn1c's expansion instead of X.680's (only used to
+                   tell which recorded finding explains a deviation) *)
 open Model
 open Drvlib
 
@@ -148,12 +150,16 @@ let dispatch cmd args =
         | None -> "NA"
         | Some m -> (match spec_bad m with
             | [] -> "OK" | l -> String.concat "," (uniq_sorted (List.map clause_s l)))) in
+      let specc = (match mc with
+        | None -> "NA"
+        | Some m -> (match spec_bad m with
+            | [] -> "OK" | l -> String.concat "," (uniq_sorted (List.map clause_s l)))) in
       let onx f = (match mx with None -> false | Some m -> f m) in
       let wf = onx tagging_wfb && xwf_written xm in
       let cends = (match mc with None -> false | Some m -> compile_ends m) in
       let cofdup = expand { p_rename = true; p_strip = false } xm <> mx in
       let cofext = expand { p_rename = false; p_strip = true } xm <> mx in
-      Some (Printf.sprintf "model=%s fix=%s spec=%s wf=%s tagref=%s choiceref=%s enummixed=%s cends=%s cof=%s cofdup=%s cofext=%s enumneg=%s"
+      Some (Printf.sprintf "model=%s fix=%s spec=%s wf=%s tagref=%s choiceref=%s enummixed=%s cends=%s cof=%s cofdup=%s cofext=%s enumneg=%s specc=%s"
               model fix spec (b01 wf) (b01 (onx has_tagref)) (b01 (onx has_choiceref))
-              (b01 (onx enum_mixed)) (b01 cends) cof (b01 cofdup) (b01 cofext) (b01 (enum_ext_neg xm)))
+              (b01 (onx enum_mixed)) (b01 cends) cof (b01 cofdup) (b01 cofext) (b01 (enum_ext_neg xm)) specc)
   | _ -> None
